@@ -4,7 +4,7 @@ from __future__ import annotations
 from ..calls import Resolver
 from ..core import Report
 from ..model import Program
-from ..quantity_rules import (check_decimal_helpers, check_gates, check_mixed_arithmetic, check_numeric_memo, check_extra_operators, check_number_hooks, check_operators, check_quantity_ctor, check_unit_with_quantity)
+from ..quantity_rules import (check_decimal_helpers, check_gates, check_mixed_arithmetic, check_numeric_memo, check_extra_operators, check_float_only_calls, check_number_hooks, check_swallowed_conversion_errors, check_operators, check_quantity_ctor, check_unit_with_quantity)
 
 TITLE = "Quantity operations obey dimensional analysis; incommensurables are rejected"
 
@@ -28,6 +28,12 @@ def run(rep: Report) -> None:
              "quotient / product hooks carry the quotient / product dimension", floor=1)
     n = check_operators(rep, prog, resolver, "R03.1", "R03.4", "R03.5", rid_dim="R03.1d")
     check_extra_operators(rep, prog, resolver, "R03.8")
+    rep.rule("R03.12", "no Quantity method hands its magnitude to a float-only library function (math.*) without a Decimal branch")
+    if check_float_only_calls(rep, prog, "R03.12") == 0:
+        rep.ok("R03.12", "Quantity", note="no math.* call on a magnitude")
+    rep.rule("R03.11", "no handler for ValueError / Exception around a conversion ends in a value (ConversionNotFound is a ValueError)")
+    if check_swallowed_conversion_errors(rep, prog, resolver, "R03.11") == 0:
+        rep.ok("R03.11", "package", note="no broad handler around a conversion")
     rep.rule("R03.10", "a hook that turns a quantity into a bare number (__float__, __int__, __index__, __complex__) refuses every quantity that still has a dimension")
     if check_number_hooks(rep, prog, "R03.10") == 0:
         rep.ok("R03.10", "Quantity / Level / Measurement", note="no numeric conversion hook is defined")
